@@ -176,6 +176,7 @@ type xfer struct {
 	odd       []*msgRec // calls that must have had no effect
 	hostile   bool      // C03: an adversary forges packets (forward-TSNs may purge a reliable stream's queue at any time)
 	seqBase   bool      // C16: every stream starts its SSN / MID spaces at the run's base (white-box, both ends)
+	extra     map[*Stream]bool // further Stream objects met under an identifier that already has one (see gotStream)
 	pokes     bool      // C19: both ends call ActiveHeartbeat at seeded moments (whatever state they and the peer are in)
 }
 
@@ -354,6 +355,34 @@ func (x *xfer) start() {
 func (x *xfer) gotStream(ep *endpoint, sid uint16, s *Stream) *simStream {
 	w := x.w
 	if st, ok := ep.streams[sid]; ok {
+		if s != nil && st.s != s && !x.extra[s] {
+			// a second Stream object under this identifier: the peer's incarnation was reset before this side got
+			// round to opening or accepting it (an application that is scheduled late). What it holds is read too.
+			if x.extra == nil {
+				x.extra = map[*Stream]bool{}
+			}
+			x.extra[s] = true
+			var d *xferDir
+			for _, c := range x.dirs {
+				if c.sid == sid && c.from != ep.side {
+					d = c
+				}
+			}
+			st2 := &simStream{ep: ep, sid: sid, s: s, inc: st.inc + 1 + len(x.extra)}
+			w.probe("second-stream-object-for-identifier")
+			w.sim.spawnClient(fmt.Sprintf("reader.%s.%d.x%d", ep.name, sid, len(x.extra)), ep.name, func() {
+				buf := make([]byte, x.bufSize)
+				for {
+					r := w.read(st2, buf, x.index)
+					if r.err != nil {
+						return
+					}
+					if x.onRead != nil {
+						x.onRead(d, r)
+					}
+				}
+			})
+		}
 		return st
 	}
 	st := x.stream(ep, sid, s)
